@@ -285,12 +285,18 @@ def tamper_variants(S, other_sig, tier_full):
 def tamper_case(draw):
     n1, n2 = draw(st.lists(NAME, min_size=2, max_size=2, unique=True))
     s1 = draw(SECRET)
-    s2 = draw(SECRET.filter(lambda s: s != s1))
+    # a really different key: str / bytes spellings of the same bytes, and trailing NULs (HMAC pads keys with NULs), are the same key
+    kb = lambda s: (s if isinstance(s, bytes) else s.encode('utf8')).rstrip(b'\0')   # noqa
+    s2 = draw(SECRET.filter(lambda s: kb(s) != kb(s1)))
     return {'name': n1, 'other_name': n2, 'secret': s1, 'other_secret': s2, 'data': to_plain(draw(DATA)), 'other_data': to_plain(draw(DATA))}
 
 
 def check_tamper(ctx, case, full=False):
     name, oname, secret, osecret = case['name'], case['other_name'], case['secret'], case['other_secret']
+    kb = lambda s: (s if isinstance(s, bytes) else s.encode('utf8')).rstrip(b'\0')   # noqa
+    if kb(secret) == kb(osecret):
+        ctx.exclude('other_secret_is_the_same_hmac_key')
+        return
     data = from_plain(case['data'])
     cookies = [{'name': name, 'secret': secret, 'data': case['data']},
                {'name': oname, 'secret': secret, 'data': case['other_data']}]
